@@ -16,7 +16,7 @@ use svmodel::gen::GenOpts;
 use svproto::*;
 
 pub fn opts(avoid: Vec<String>) -> GenOpts {
-    GenOpts { winds: false, heap: true, gc_points: true, errors: true, avoid, ..GenOpts::default() }
+    GenOpts { winds: false, reentry: true, heap: true, gc_points: true, errors: true, avoid, ..GenOpts::default() }
 }
 
 const PERIODS: &[u64] = &[1, 1, 2, 3, 5, 17];
@@ -54,13 +54,16 @@ pub fn check_case(ctx: &Ctx, ws: &mut Workers, c: &ProgCase, counting: bool, str
                     }
                 }
                 RunVerdict::Done(Err(f)) => {
-                    // is the failure caused by the collector?  Re-run without stress.
+                    // is the failure caused by the collector?  Re-run without forced collections and with the
+                    // explicit collection requests taken out (programs of this size never collect on their own).
+                    STRIP_GC_POINTS.with(|s| s.set(true));
                     let (v2, _) = check_program_hooks("c04", ws, &cfg, &c.program, &m.result, &[], entry);
+                    STRIP_GC_POINTS.with(|s| s.set(false));
                     let sub = f.sig.split_once(':').map(|x| x.1).unwrap_or(&f.sig).to_string();
                     return match v2 {
                         RunVerdict::Done(Ok(())) => Err(Failure::new(
                             format!("c04:gc:{}", sub),
-                            format!("gc-stress period {} (the same program agrees with the reference without forced collections)\n{}", n, f.detail),
+                            format!("gc-stress period {} (the same program agrees with the reference without forced and without requested collections)\n{}", n, f.detail),
                         )),
                         // fails without the collector too: not a C04 matter (C01 / C02)
                         _ => Err(Failure::new(format!("c04:nogc:{}{}", if jit_on { "jitdiv:" } else { "" }, sub), f.detail)),
@@ -76,7 +79,7 @@ pub fn check_case(ctx: &Ctx, ws: &mut Workers, c: &ProgCase, counting: bool, str
         ctx.stats.eval();
         ctx.stats.class(&format!("stress-period-{}", n));
         for f in &c.features {
-            if ["set-box!", "vector-set!", "closure-over-assigned-variable", "gc-point", "call/cc", "with-handler", "assignment-cluster"].contains(&f.as_str()) {
+            if ["set-box!", "vector-set!", "closure-over-assigned-variable", "gc-point", "call/cc", "with-handler", "assignment-cluster", "continuation-reentry", "reentry-into-closure-instance-recursion", "reentry-into-map", "capture-in-argument-position"].contains(&f.as_str()) {
                 ctx.stats.class(&format!("feature:{}", f));
             }
         }
@@ -373,7 +376,12 @@ pub fn run(ctx: &Ctx, replay: Option<&str>) -> i32 {
         .into_iter()
         .map(|(c, f)| {
             let mut last = f.clone();
+            // the reduction has a wall-clock budget: past it every further candidate is rejected
+            let reduce_deadline = std::time::Instant::now() + std::time::Duration::from_secs(if ctx.quick() { 150 } else { 900 });
             let reduced = svmodel::shrink::reduce(&c.program, 800, &mut |p| {
+                if std::time::Instant::now() > reduce_deadline {
+                    return false;
+                }
                 let cand = ProgCase { program: p.clone(), text: render_program(p), features: vec![], excluded: vec![] };
                 match check_case(ctx, &mut ws, &cand, false, false) {
                     Err(g) if g.sig == f.sig => {
